@@ -2,7 +2,7 @@ CONSTANTS
   Fam = "mac"
   NM = 1
   KindSet = {"f1", "fv"}
-  MaxBody = 3
+  MaxBody = 2
   MaxInv = 5
   BodyAlpha = {"#x", "#V", "x", "a"}
   InvAlpha = {"f", "a", "(", ")", ",", "S2", "C1"}
